@@ -251,6 +251,11 @@ pub open spec fn split_factor(txs: Seq<GbpTransaction>, sell_idx: int, hi: int) 
     }
 }
 pub open spec fn leg_acq_d(m: MatchResult) -> int { m.match_detail.acquisition_date->Some_0.d() }
+/// 30-day legs come out earliest acquisition first (hidden from callers: the two-index quantifier is costly and no caller unfolds it)
+#[verifier::opaque]
+pub open spec fn legs_earliest_first(s: Seq<MatchResult>) -> bool {
+    forall|j1: int, j2: int| 0 <= j1 < j2 < s.len() ==> leg_acq_d(#[trigger] s[j1]) <= leg_acq_d(#[trigger] s[j2])
+}
 /// C01.window + C04: a 30-day leg of `sell`
 pub open spec fn bnb_leg_ok(m: MatchResult, sell: GbpTransaction) -> bool {
     &&& m.match_detail.rule == MatchRule::BedAndBreakfast
@@ -636,5 +641,80 @@ pub proof fn lemma_merge_totals(a: GbpTransaction, b: GbpTransaction, m: GbpTran
 /// C04.pro_rata: the share of the day's sale attributed to a leg of q out of Q shares
 pub open spec fn pro_rata_gross(q: real, price: real) -> real { q * price }
 pub open spec fn pro_rata_fees(q: real, big_q: real, fees: real) -> real { fees * (q / big_q) }
+
+
+// ---------- INV_LEGS: nothing skipped — per (disposal date, security) the legs emitted so far add up to the SELL lines processed so far
+pub open spec fn f_leg_qty_on(d: int, t: Seq<char>) -> spec_fn(MatchResult) -> real {
+    |m: MatchResult| if m.disposal_date.d() == d && m.disposal_ticker@ == t { m.match_detail.quantity.v() } else { 0real }
+}
+pub open spec fn legs_qty_on(ms: Seq<MatchResult>, d: int, t: Seq<char>) -> real { rsum(ms, f_leg_qty_on(d, t)) }
+pub open spec fn f_sold_on(txs: Seq<GbpTransaction>, d: int, t: Seq<char>) -> spec_fn(int) -> real {
+    |k: int| if 0 <= k < txs.len() && txs[k].operation is Sell && txs[k].date.d() == d && txs[k].ticker@ == t { sell_qty(txs[k]) } else { 0real }
+}
+/// shares of security t sold on day d by the first n lines
+pub open spec fn sold_upto(txs: Seq<GbpTransaction>, n: int, d: int, t: Seq<char>) -> real { isum(n, f_sold_on(txs, d, t)) }
+pub open spec fn inv_legs(ms: Seq<MatchResult>, txs: Seq<GbpTransaction>, n: int) -> bool {
+    forall|d: int, t: Seq<char>| #![trigger legs_qty_on(ms, d, t)] legs_qty_on(ms, d, t) == sold_upto(txs, n, d, t)
+}
+/// one SELL line handled: its new legs (all carrying its date and security, adding up to its quantity) extend the list
+pub proof fn lemma_legs_sell(m0: Seq<MatchResult>, m1: Seq<MatchResult>, txs: Seq<GbpTransaction>, k: int)
+    requires
+        0 <= k < txs.len(), txs[k].operation is Sell, inv_legs(m0, txs, k),
+        m1.len() >= m0.len(), m1.take(m0.len() as int) == m0,
+        legs_of(m1.skip(m0.len() as int), txs[k]), rsum(m1.skip(m0.len() as int), f_leg_qty()) == sell_qty(txs[k]),
+    ensures inv_legs(m1, txs, k + 1),
+{
+    let nw = m1.skip(m0.len() as int);
+    assert(m1 =~= m0 + nw);
+    assert forall|d: int, t: Seq<char>| #![trigger legs_qty_on(m1, d, t)] legs_qty_on(m1, d, t) == sold_upto(txs, k + 1, d, t) by {
+        rsum_concat(m0, nw, f_leg_qty_on(d, t));
+        assert(legs_qty_on(m0, d, t) == sold_upto(txs, k, d, t));
+        if txs[k].date.d() == d && txs[k].ticker@ == t {
+            assert forall|i: int| 0 <= i < nw.len() implies f_leg_qty_on(d, t)(#[trigger] nw[i]) == f_leg_qty()(nw[i]) by {}
+            rsum_ext(nw, nw, f_leg_qty_on(d, t), f_leg_qty());
+        } else {
+            assert forall|i: int| 0 <= i < nw.len() implies f_leg_qty_on(d, t)(#[trigger] nw[i]) == 0real by {}
+            rsum_zero(nw, f_leg_qty_on(d, t));
+        }
+    }
+}
+/// a line that is not a SELL (or emits nothing) leaves the balance unchanged
+pub proof fn lemma_legs_skip(ms: Seq<MatchResult>, txs: Seq<GbpTransaction>, k: int)
+    requires 0 <= k < txs.len(), !(txs[k].operation is Sell), inv_legs(ms, txs, k),
+    ensures inv_legs(ms, txs, k + 1),
+{
+    assert forall|d: int, t: Seq<char>| #![trigger legs_qty_on(ms, d, t)] legs_qty_on(ms, d, t) == sold_upto(txs, k + 1, d, t) by {
+        assert(legs_qty_on(ms, d, t) == sold_upto(txs, k, d, t));
+    }
+}
+
+
+/// per-day totals do not depend on line order
+pub proof fn lemma_totals_perm(a: Seq<GbpTransaction>, b: Seq<GbpTransaction>, d: int, t: Seq<char>)
+    requires a.to_multiset() == b.to_multiset()
+    ensures day_totals(a, d, t) == day_totals(b, d, t)
+{
+    rsum_multiset(a, b, f_sell_on(d, t)); rsum_multiset(a, b, f_sell_val_on(d, t)); rsum_multiset(a, b, f_sell_fee_on(d, t));
+    rsum_multiset(a, b, f_buy_on(d, t)); rsum_multiset(a, b, f_buy_val_on(d, t)); rsum_multiset(a, b, f_buy_fee_on(d, t));
+}
+pub proof fn lemma_sold_rsum(txs: Seq<GbpTransaction>, n: int, d: int, t: Seq<char>)
+    requires 0 <= n <= txs.len()
+    ensures sold_upto(txs, n, d, t) == rsum(txs.take(n), f_sell_on(d, t))
+    decreases n
+{
+    if n == 0 { assert(txs.take(0) =~= Seq::<GbpTransaction>::empty()); }
+    else { lemma_sold_rsum(txs, n - 1, d, t); rsum_take_step(txs, n - 1, f_sell_on(d, t)); }
+}
+/// end-to-end form of INV_LEGS: in terms of the caller's list `input`, of which `txs` is the sorted-and-merged form
+pub proof fn lemma_legs_end(ms: Seq<MatchResult>, txs: Seq<GbpTransaction>, input: Seq<GbpTransaction>)
+    requires inv_legs(ms, txs, txs.len() as int), forall|d: int, t: Seq<char>| #![trigger day_totals(txs, d, t)] day_totals(txs, d, t) == day_totals(input, d, t)
+    ensures forall|d: int, t: Seq<char>| #![trigger legs_qty_on(ms, d, t)] legs_qty_on(ms, d, t) == day_sells(input, d, t)
+{
+    assert forall|d: int, t: Seq<char>| #![trigger legs_qty_on(ms, d, t)] legs_qty_on(ms, d, t) == day_sells(input, d, t) by {
+        lemma_sold_rsum(txs, txs.len() as int, d, t);
+        assert(txs.take(txs.len() as int) =~= txs);
+        assert(day_totals(txs, d, t) == day_totals(input, d, t));
+    }
+}
 
 } // verus!
